@@ -47,6 +47,13 @@ def order_documents(rng):
             s["not"] = obj("Thing", {"never": {"type": "null"}})
         docs.append(s)
     for _ in range(4):
+        # type lists, also with repeated entries
+        types = rng.sample(["string", "integer", "null", "boolean", "number", "array"], rng.randint(2, 5))
+        if rng.random() < 0.7:
+            types = types + [rng.choice(types)]
+            rng.shuffle(types)
+        docs.append(obj("Root", {rng.choice(words): {"type": types}, rng.choice(words): {"type": list(reversed(types))}}))
+    for _ in range(4):
         # several undeclared required names
         names = rng.sample(words, rng.randint(2, 6))
         docs.append(obj("Root", {rng.choice(words): {"type": "string"}}, required=names))
